@@ -286,7 +286,7 @@ bool Hist::opDeclarePoint() {
     size_t n = prev.frames.size();
     bool overGaps = n > 0 && hasGaps(prev);
     if (!wild && overGaps && !rng.chance(35)) return false;
-    if (labels.size() >= 12 && !wild) return false;
+    if ((labels.size() >= 12 || prev.h.nPts >= 200) && !wild) return false;   // (more than 255 points is beyond the format: C17's business)
     bool dup = !labels.empty() && rng.chance(n > 0 ? 15 : (wild ? 15 : 0));   // duplicate declaration on an empty data set is undocumented -> wild only
     std::string name = dup ? labels[rng.below(labels.size())] : freshName("P", labels);
     bool padded = !dup && rng.chance(15);
@@ -321,7 +321,7 @@ bool Hist::opDeclareChannel() {
     bool chOverGaps = n > 0 && hasGaps(prev);
     if (!wild && n > 0 && (prev.h.sub == 0 || (!subsUniform(prev) && !chOverGaps))) return false;
     if (!wild && chOverGaps && !rng.chance(30)) return false;       // a gap frame has no sub-frames to receive a channel: what happens is documented neither way (C07 not judged), but a throw must leave the object unchanged
-    if (labels.size() >= 8 && !wild) return false;
+    if ((labels.size() >= 8 || prev.h.nAnalogs >= 200) && !wild) return false;
     bool dup = !labels.empty() && rng.chance(n > 0 ? 15 : (wild ? 15 : 0));
     std::string name = dup ? labels[rng.below(labels.size())] : freshName("A", labels);
     bool padded = !dup && rng.chance(15);
@@ -354,7 +354,7 @@ bool Hist::opPointColumn() {
     bool overGaps = hasGaps(prev);
     if (!wild && overGaps && !rng.chance(35)) return false;
     std::vector<std::string> labels = labelsOf(prev, "POINT");
-    if (labels.size() >= 14 && !wild) return false;
+    if ((labels.size() >= 14 || prev.h.nPts >= 200) && !wild) return false;
     // deviations: 0 valid, 1 frames-1, 2 frames+1, 3 no frames supplied, 4 no points, 5 existing name, 6 two columns/second duplicates an existing, 7 two columns/second duplicates the first, (wild) 8 later frame has fewer points
     int dev = 0; if (rng.chance(35) || n == 0) { dev = rng.range(1, 9); if ((dev == 8 || dev == 9) && n < 2) dev = 7; }   // 8 = ragged: documented neither way, only C10 (unchanged after a throw) is judged
     size_t k = (dev == 6 || dev == 7 || dev == 9 || rng.chance(25)) ? 2 : 1;
@@ -397,7 +397,7 @@ bool Hist::opChannelColumn() {
     if (!wild && !emptyData && (nsub == 0 || (!subsUniform(prev) && !chOverGaps))) return false;
     if (!wild && chOverGaps && !rng.chance(30)) return false;
     std::vector<std::string> labels = labelsOf(prev, "ANALOG");
-    if (labels.size() >= 10 && !wild) return false;
+    if ((labels.size() >= 10 || prev.h.nAnalogs >= 200) && !wild) return false;
     // 0 valid, 1 frames-1, 2 frames+1, 3 sub-1, 4 sub+1, 5 no channels, 6 existing name, 7 second duplicates existing, 8 second duplicates first, (wild) 9 no frames
     int dev = 0; if (rng.chance(35)) dev = rng.range(1, wild ? 9 : 8);
     bool ragged = !emptyData && dev == 0 && n >= 1 && nsub >= 2 && rng.chance(12);   // one later sub-frame one channel short: documented neither way, only C10 is judged
